@@ -70,6 +70,42 @@ print(json.dumps(bad[:5]))
             ctx.notes.append("history runner failed: " + r.stderr[-300:])
         for h in hist_bad[:2]:
             ctx.violation({"what": "a layout depends on what the same DependencyChartLayout instance laid out before", "history": h})
+        # other geometries than the default one of the model (node_height / node_spacing are constructor parameters):
+        # the statements of C17 / C18 do not mention the geometry, so they are checked on the output directly
+        code3 = r'''
+import sys, json
+sys.path.insert(0, %r)
+from visualization.dependency_chart_layout import DependencyChartLayout
+out = []
+for c in json.load(sys.stdin):
+    row = []
+    for (h, sp) in ((1, 1), (2, 2), (3, 1), (1, 2), (2, 0.5)):
+        nodes = list(c["nodes"])
+        ed, et = {}, []
+        for a, b in c["edges"]:
+            ed.setdefault(a, []).append(b); et.append((a, b))
+        try:
+            co = DependencyChartLayout(node_height=h, node_spacing=sp).from_graph_data(nodes, ed, et)
+            row.append([[k, v[0], v[1]] for k, v in co.items()])
+        except BaseException as e:
+            row.append({"raise": "%%s: %%s" %% (type(e).__name__, str(e)[:100])})
+    out.append(row)
+print(json.dumps(out))
+''' % ctx.repo_copy
+        gsample = [c for c in small if len(c["edges"]) >= 3][:120] + [hr.choice(longish) for _ in range(200 if ctx.tier == "quick" else 2000)]
+        r3 = subprocess.run([common.PY, "-W", "ignore", "-c", code3], input=json.dumps(gsample), capture_output=True, text=True, env=ctx.impl_env(), timeout=900)
+        if r3.returncode != 0:
+            ctx.notes.append("geometry runner failed: " + r3.stderr[-300:])
+        else:
+            ng = 0
+            for c, row in zip(gsample, json.loads(r3.stdout)):
+                for geo, res in zip(((1, 1), (2, 2), (3, 1), (1, 2), (2, 0.5)), row):
+                    msg = L.spec_check(c, res if isinstance(res, dict) else [tuple(x) for x in res])
+                    if msg and msg.startswith(ctx.prop) and ng < 2:
+                        ng += 1
+                        hist_bad.append({"case": c})
+                        ctx.violation({"what": "the implementation's layout violates the property with node_height=%s, node_spacing=%s" % geo,
+                                       "detail": msg, "case": c, "implementation": res})
         # ... and across interpreter processes: node ids are strings when DependencyGraph calls the layout, and string
         # hashing (hence the iteration order of sets of strings) differs per process
         code2 = r'''
